@@ -896,11 +896,26 @@ class World:
                 n_chain += 1
             else:
                 n_direct += 1
+            try:
+                foreign = target.modules_collection is not mc
+            except ValueError:
+                foreign = False
+            if foreign:
+                # the target lives in the other collection: `aliases` is keyed by path, and paths are only unique
+                # within one collection (an alias of the other collection with the same path shares the key)
+                self.classes["registry-skipped:target-in-other-collection"] += 1
+                continue
             own = ar.path
             if target.aliases.get(own) is not ar:
                 keys = [k for k, v in target.aliases.items() if v is ar]
                 occupant = target.aliases.get(own)
                 tree_reals = {id(self.real[n.id]) for n, _ in in_tree}
+                if occupant is not None and id(occupant) not in tree_reals and any(
+                    self.real[n.id] is occupant for top in self.other_root.members.values() for n in self.subtree(top)
+                ):
+                    # the key is held by a live alias of the *other* collection that has the same path
+                    self.classes["registry-skipped:key-shared-with-other-collection"] += 1
+                    continue
                 occupant_detached = occupant is not None and id(occupant) not in tree_reals
                 occupant_path = None
                 if occupant is not None and not occupant_detached:
